@@ -138,6 +138,18 @@ def check_new_mbox_name(name: str) -> None:
             f"root or mailbox that is just white space: '{name}'"
         )
 
+    # What the file system (or MH) is going to refuse has to be refused
+    # before any of the parent folders has been made: a part of the name
+    # longer than a file name can be, or one that is the name of the file MH
+    # keeps in every folder.
+    #
+    for part in name.split("/"):
+        if len(os.fsencode(part)) > 255 or part == ".mh_sequences":
+            raise InvalidMailbox(
+                f"Invalid mailbox name: '{name[:64]}': '{part[:32]}' can "
+                "not be the name of a folder"
+            )
+
 
 ####################################################################
 #
